@@ -378,7 +378,9 @@ pub fn apply_mutation(t: &Table, l: &Layout, v: &Val, m: &Mutation, pool: &[Vec<
                 class = "digit-overflow";
                 let (path, gi, ei) = bcd[pick(m.sel, bcd.len())].clone();
                 let last = m.bytes.first().copied().unwrap_or(0xee);
-                let digits: Vec<u8> = match m.a % 7 {
+                let digits: Vec<u8> = match m.a % 8 {
+                    // ... and of a u128 accumulator
+                    7 => vec![0x03, 0x40, 0x28, 0x23, 0x66, 0x92, 0x09, 0x38, 0x46, 0x34, 0x63, 0x37, 0x46, 0x07, 0x43, 0x17, 0x68, 0x21, 0x15 - (m.b % 3) as u8, last],
                     0 | 1 => vec![0x99; 1 + (m.b % 40) as usize],
                     2 => m.bytes.iter().cloned().chain([0x12]).take(40).collect(),
                     // leading digits right at the overflow limit of u8 / u16 / u32 / u64, then an arbitrary last byte
